@@ -83,6 +83,13 @@ def r_mink(idx, rep, rule="R-MINK", modules=None, floor=9):
                 na, nb = _result_name(pm, ca), _result_name(pm, cb)
                 verdict = None
                 how = ""
+                # the difference written in place: first.support_function(d) - second.support_function(-d)
+                for n in ast.walk(f.node):
+                    if isinstance(n, ast.BinOp) and isinstance(n.op, ast.Sub):
+                        if n.left is ca and n.right is cb:
+                            verdict, how = True, "difference of the two calls"
+                        elif n.left is cb and n.right is ca:
+                            verdict, how = False, "second call - first call"
                 if na and nb:
                     for n in ast.walk(f.node):
                         if isinstance(n, ast.BinOp) and isinstance(n.op, ast.Sub):
